@@ -379,7 +379,7 @@ class HttpParser:
         return len(rest)
 
     def _parse_body(self):
-        if self._status_code == 204 and not b''.join(self._buf):
+        if self._status_code in (204, 304) and not b''.join(self._buf):
             self.__on_message_complete = True
             return None
         if not self._chunked:
